@@ -72,3 +72,68 @@ func DBModelS1() model.DatabaseModel {
 	}
 	return dbm
 }
+
+// SchemaS2: one column of every shape the library maps (C09).
+const SchemaS2 = `{"name":"V","version":"1.0.0","tables":{
+ "All":{"isRoot":true,"columns":{
+   "i":{"type":"integer"},"r":{"type":"real"},"b":{"type":"boolean"},"s":{"type":"string"},"u":{"type":"uuid"},
+   "e":{"type":{"key":{"type":"string","enum":["set",["a","b","c"]]}}},
+   "one":{"type":{"key":"string","min":1,"max":1}},
+   "oi":{"type":{"key":"integer","min":0,"max":1}},
+   "os":{"type":{"key":"string","min":0,"max":1}},
+   "ou":{"type":{"key":"uuid","min":0,"max":1}},
+   "ob":{"type":{"key":"boolean","min":0,"max":1}},
+   "or":{"type":{"key":"real","min":0,"max":1}},
+   "si":{"type":{"key":"integer","min":0,"max":"unlimited"}},
+   "ss":{"type":{"key":"string","min":0,"max":"unlimited"}},
+   "su":{"type":{"key":"uuid","min":0,"max":"unlimited"}},
+   "sr":{"type":{"key":"real","min":0,"max":"unlimited"}},
+   "mss":{"type":{"key":"string","value":"string","min":0,"max":"unlimited"}},
+   "msi":{"type":{"key":"string","value":"integer","min":0,"max":"unlimited"}},
+   "mis":{"type":{"key":"integer","value":"string","min":0,"max":"unlimited"}},
+   "msu":{"type":{"key":"string","value":"uuid","min":0,"max":"unlimited"}},
+   "mus":{"type":{"key":"uuid","value":"string","min":0,"max":"unlimited"}},
+   "msr":{"type":{"key":"string","value":"real","min":0,"max":"unlimited"}},
+   "msb":{"type":{"key":"string","value":"boolean","min":0,"max":"unlimited"}}
+ }}}}`
+
+// All maps SchemaS2's table.
+type All struct {
+	UUID string             `ovsdb:"_uuid"`
+	I    int                `ovsdb:"i"`
+	R    float64            `ovsdb:"r"`
+	B    bool               `ovsdb:"b"`
+	S    string             `ovsdb:"s"`
+	U    string             `ovsdb:"u"`
+	E    string             `ovsdb:"e"`
+	One  string             `ovsdb:"one"`
+	OI   *int               `ovsdb:"oi"`
+	OS   *string            `ovsdb:"os"`
+	OU   *string            `ovsdb:"ou"`
+	OB   *bool              `ovsdb:"ob"`
+	OR   *float64           `ovsdb:"or"`
+	SI   []int              `ovsdb:"si"`
+	SS   []string           `ovsdb:"ss"`
+	SU   []string           `ovsdb:"su"`
+	SR   []float64          `ovsdb:"sr"`
+	MSS  map[string]string  `ovsdb:"mss"`
+	MSI  map[string]int     `ovsdb:"msi"`
+	MIS  map[int]string     `ovsdb:"mis"`
+	MSU  map[string]string  `ovsdb:"msu"`
+	MUS  map[string]string  `ovsdb:"mus"`
+	MSR  map[string]float64 `ovsdb:"msr"`
+	MSB  map[string]bool    `ovsdb:"msb"`
+}
+
+// DBModelS2 builds the database model for SchemaS2.
+func DBModelS2() model.DatabaseModel {
+	cm, err := model.NewClientDBModel("V", map[string]model.Model{"All": &All{}})
+	if err != nil {
+		panic("fix: " + err.Error())
+	}
+	dbm, errs := model.NewDatabaseModel(MustSchema(SchemaS2), cm)
+	if len(errs) > 0 {
+		panic("fix: " + errs[0].Error())
+	}
+	return dbm
+}
